@@ -21,6 +21,8 @@ import (
 	"sync"
 	"time"
 
+	"github.com/sarchlab/mgpusim/v4/amd/insts"
+
 	"verifharness/vlib"
 )
 
@@ -31,6 +33,14 @@ func main() {
 	}
 	if len(os.Args) > 1 && os.Args[1] == "list" {
 		listMain()
+		return
+	}
+	if len(os.Args) > 2 && os.Args[1] == "disasm" {
+		disasmMain(os.Args[2])
+		return
+	}
+	if len(os.Args) > 2 && os.Args[1] == "spec" {
+		specMain(os.Args[2:])
 		return
 	}
 	// --replay <file>: re-execute the case of a replay file (read before
@@ -372,6 +382,77 @@ func listMain() {
 			for _, k := range prog.Kernels {
 				fmt.Printf("%s: launch=%v insts=%d mem=%d feat=%v\n", sp.ID, k.L, k.NInst, k.NMem, k.Feat)
 			}
+		}
+	}
+}
+
+// specMain prints a replay file for a canonical program id (debugging aid):
+// w_c02 spec <probe-<arch>-<feature> | canon-mix<k>-<arch> | shipped-<name>-<arch>-<p1,p2>> [variant]
+func specMain(args []string) {
+	id := args[0]
+	var rc replayCase
+	for _, p := range pairs() {
+		if !strings.Contains(id, "-"+p.Arch) {
+			continue
+		}
+		rc.Arch, rc.GPU, rc.Emu, rc.Timing = p.Arch, p.GPU, p.Emu, p.Timing
+		if len(args) > 1 {
+			for _, v := range variants(p) {
+				if strings.HasSuffix(v.Name, "/"+args[1]) {
+					rc.Timing = v
+				}
+			}
+		}
+		switch {
+		case strings.HasPrefix(id, "probe-"):
+			f := strings.TrimPrefix(id, "probe-"+p.Arch+"-")
+			sp := probeSpec(p.Arch, f)
+			rc.Prog, rc.Scope = &sp, "probe:"+f
+		case strings.HasPrefix(id, "canon-mix"):
+			k := int(id[len("canon-mix")] - '0')
+			sp := canonMix(p.Arch, k)
+			rc.Prog, rc.Scope = &sp, "variant"
+		case strings.HasPrefix(id, "shipped-"):
+			parts := strings.Split(id, "-")
+			var params []int
+			for _, x := range strings.Split(parts[3], ",") {
+				var v int
+				fmt.Sscanf(x, "%d", &v)
+				params = append(params, v)
+			}
+			rc.Shipped, rc.Scope = &ShippedSpec{Name: parts[1], Arch: p.Arch, Params: params}, "shipped"
+		}
+	}
+	b, _ := json.MarshalIndent(map[string]any{"witness": map[string]any{"replay": rc}}, "", " ")
+	fmt.Println(string(b))
+}
+
+// disasmMain prints the kernels of the program in a replay file, decoded by
+// the simulator's own disassembler (debugging aid).
+func disasmMain(path string) {
+	rc := loadReplay(path)
+	prog, err := BuildProgram(*rc.Prog)
+	if err != nil {
+		fmt.Println(err)
+		return
+	}
+	for i, k := range prog.Kernels {
+		fmt.Printf("== kernel %d launch %v ostr %d istr %d ishift %d infrom %d\n", i, k.L, k.OStr, k.IStr, k.IShift, k.InFrom)
+		d := insts.NewDisassembler()
+		d.IsCDNA3 = rc.Arch == "cdna3"
+		buf := k.CO.Data
+		pc := 0
+		n := 0
+		for len(buf) > 0 && n < k.NInst {
+			in, err := d.Decode(buf)
+			if err != nil {
+				fmt.Printf("%5x: decode error %v\n", pc, err)
+				break
+			}
+			fmt.Printf("%4d %5x: %s\n", n, pc, insts.NewInstPrinter(nil).Print(in))
+			buf = buf[in.ByteSize:]
+			pc += in.ByteSize
+			n++
 		}
 	}
 }
